@@ -53,19 +53,23 @@ Proof.
   destruct (sgn t) eqn:S; [specialize (RF4 eq_refl)|specialize (RF5 eq_refl)]; repeat split; try lia; try nia.
 Qed.
 
-(* PARTIAL: signed division by a divisor < -1 is excluded (see div_signed_refuted in IntRefuted.v: the code
-   tests the sign of the remainder, which is the sign of the dividend, without regard to the divisor's sign). *)
-Theorem div_int_ok_partial d x y old :
-  fin p t x -> fin p t y -> y <> 0 -> (sgn t = true -> 0 < y \/ y = -1) ->
+Lemma frac_opp x y : y <> 0 -> same_exact (EFrac x y) (EFrac (- x) (- y)).
+Proof.
+  intros. unfold same_exact. cbn. repeat split; intros;
+  destruct (Z.ltb_spec 0 y), (Z.ltb_spec 0 (- y)); try lia.
+Qed.
+
+(* div_signed_int / div_unsigned_int, every non-zero divisor *)
+Theorem div_int_ok d x y old :
+  fin p t x -> fin p t y -> y <> 0 ->
   exists sr, div_int c d x y old = Some sr /\ ok p t d sr (EFrac x y).
 Proof.
-  intros Fx Fy Y0 Ys. unfold div_int. fold t p. rewrite (check_dz y Y0), Hco. cbn [andb].
+  intros Fx Fy Y0. unfold div_int. fold t p. rewrite (check_dz y Y0), Hco. cbn [andb].
   destruct (sgn t) eqn:S.
   - destruct (Z.eqb_spec y (-1)) as [Y1|Y1].
     + subst y. destruct (neg_int_ok c Hwf Hco d x old Fx) as (sr & E & [O _]). exists sr. split; auto.
       eapply ok_same; [apply frac_neg1|exact O].
-    + assert (Yp : 0 < y) by (destruct (Ys eq_refl); [auto|contradiction]).
-      destruct (quot_in_range x y Fx Fy Y0 ltac:(auto)) as (Fq & Rr & Aq).
+    + destruct (quot_in_range x y Fx Fy Y0 ltac:(auto)) as (Fq & Rr & Aq).
       unfold mquot, mrem. destruct (Z.eqb_spec y 0); [contradiction|].
       pose proof (fin_in_range p t Hb _ Fq) as Rq.
       rewrite !mach_in by lia. cbn iota.
@@ -75,11 +79,18 @@ Proof.
       destruct (quot_facts x y Y0) as (Q1 & Q2 & Q3 & Q4).
       set (q := x ÷ y) in *. set (r := Z.rem x y) in *. clearbody q r.
       pose proof (range_facts p t Hb) as (RF1 & RF2 & RF3 & RF4 & RF5). specialize (RF4 S).
-      assert (Yb : 0 < y) by lia. apply Z.ltb_lt in Yb.
-      destruct (Z.ltb_spec r 0); [|destruct (Z.ltb_spec 0 r)].
-      * apply round_lt_no_ok; auto; unfold fin in *; cbn; rewrite ?Yb; nia.
-      * apply round_gt_no_ok; auto; unfold fin in *; cbn; rewrite ?Yb; nia.
-      * eexists; split; [reflexivity|]. apply eq_ok; auto. cbn. nia.
+      destruct (Z.eqb_spec r 0) as [R0|R0]; cbn [negb andb].
+      { eexists; split; [reflexivity|]. apply eq_ok; auto. cbn. nia. }
+      destruct (Z.ltb_spec r 0), (Z.ltb_spec y 0); cbn [xorb]; try lia.
+      * (* x < 0, y < -1: quotient positive, truncation below *)
+        apply round_gt_no_ok; auto; unfold fin in *; cbn;
+          destruct (Z.ltb_spec 0 y); try lia; nia.
+      * apply round_lt_no_ok; auto; unfold fin in *; cbn;
+          destruct (Z.ltb_spec 0 y); try lia; nia.
+      * apply round_lt_no_ok; auto; unfold fin in *; cbn;
+          destruct (Z.ltb_spec 0 y); try lia; nia.
+      * apply round_gt_no_ok; auto; unfold fin in *; cbn;
+          destruct (Z.ltb_spec 0 y); try lia; nia.
   - assert (Yp : 0 < y).
     { pose proof (range_facts p t Hb) as (_ & _ & _ & _ & RF5). specialize (RF5 S). unfold fin in Fy. lia. }
     destruct (quot_in_range x y Fx Fy Y0 ltac:(congruence)) as (Fq & Rr & Aq).
